@@ -65,6 +65,7 @@ def run(chk, repo, tier):
     run_f9(chk, repo)
     run_f10_f11(chk, repo)
     run_f12(chk, repo)
+    run_f13_f14(chk, repo)
 
 
 # bare-statement calls whose dropped result was read and confirmed harmless
@@ -559,15 +560,124 @@ def run_f12(chk, repo):
     f = om.functions.get('get_initial_conditions')
     if f is None:
         raise AnalysisError('get_initial_conditions not found')
-    sites = [a for a in ast.walk(f.node) if isinstance(a, ast.Assign) and isinstance(a.targets[0], ast.Subscript)
-             and any(isinstance(x, ast.Attribute) and x.attr == 'amount' and 'doses' in unparse(x.value) for x in ast.walk(a.value))]
+    # d[A(t0)] = <dose>.amount ...: the dose may be written comp.doses[0] or held in a local bound to it
+    from sa import reach
+    cfg = CFG(f.node)
+    sites = []
+    for a in ast.walk(f.node):
+        if isinstance(a, ast.Assign) and isinstance(a.targets[0], ast.Subscript):
+            nid = reach.node_of(cfg, a)
+            val = reach.expand_expr(cfg, nid, a.value) if nid is not None else a.value
+            if any(isinstance(x, ast.Attribute) and x.attr == 'amount' and 'doses' in unparse(x.value) for x in ast.walk(val)):
+                sites.append((a, val))
     if not sites:
         raise AnalysisError('F12: assignment of the dose amount to an initial condition not found')
-    for a in sites:
-        ok = any(isinstance(x, ast.Attribute) and x.attr == 'bioavailability' for x in ast.walk(a.value))
+    for a, val in sites:
+        ok = any(isinstance(x, ast.Attribute) and x.attr == 'bioavailability' for x in ast.walk(val))
         chk.instance(F12, f'get_initial_conditions: `{unparse(a)[:80]}` uses the bioavailability: {ok}')
         if not ok:
             chk.violation(F12, om.rel, f.name, unparse(a)[:100],
                           'the amount that enters the compartment is dose * F; the closed-form solution built from these initial '
                           'conditions ignores F', line=a.lineno,
                           witness='add_bioavailability(pheno) then solve_ode_system: A_CENTRAL(t) = AMT*exp(-CL*t/V) without F1')
+
+
+def _body_paths(stmts, interesting, limit=512):
+    """structured paths through a loop body as lists of the `interesting` statements met; If forks, continue/break/return/
+    raise end a path, inner loops are taken zero or one time"""
+    paths = [([], False)]
+    for s_ in stmts:
+        new = []
+        for ev, done in paths:
+            if done:
+                new.append((ev, True))
+                continue
+            if interesting(s_):
+                ev = ev + [s_]
+            if isinstance(s_, ast.If):
+                for branch in (s_.body, s_.orelse):
+                    for ev2, d2 in _body_paths(branch, interesting, limit):
+                        new.append((ev + ev2, d2))
+            elif isinstance(s_, (ast.For, ast.While)):
+                new.append((ev, False))
+                for ev2, d2 in _body_paths(s_.body, interesting, limit):
+                    new.append((ev + ev2, False))
+            elif isinstance(s_, (ast.Continue, ast.Break, ast.Return, ast.Raise)):
+                new.append((ev, True))
+            elif isinstance(s_, (ast.With, ast.Try)):
+                for ev2, d2 in _body_paths(s_.body, interesting, limit):
+                    new.append((ev + ev2, d2))
+            else:
+                new.append((ev, False))
+        paths = new[:limit]
+    return paths
+
+
+def run_f13_f14(chk, repo):
+    """F13: mu_reference_model shifts its insertion offset exactly when it replaces one statement by two; F14: a random
+    variable is replaced by 0 only when every variance parameter is fixed to zero (truth table)"""
+    from sa import tables as T
+    F13 = chk.rule('F13', 'mu_reference_model: the index offset grows on exactly the paths that splice two statements in for '
+                          'one', floor=1)
+    xm = repo.module('pharmpy.modeling.expressions')
+    f = xm.functions.get('mu_reference_model')
+    if f is None:
+        raise AnalysisError('mu_reference_model not found')
+    loops = [L for L in walk_no_nested(f.node) if isinstance(L, ast.For) and any(
+        isinstance(a, ast.AugAssign) and isinstance(a.op, ast.Add) for a in ast.walk(L))]
+    n13 = 0
+    for L in loops:
+        incs = [a for a in ast.walk(L) if isinstance(a, ast.AugAssign) and isinstance(a.op, ast.Add)
+                and isinstance(a.target, ast.Name) and isinstance(a.value, ast.Constant) and a.value.value == 1]
+        for inc in incs:
+            off = inc.target.id
+            # splices: X = X[0:k] + a + b + X[k + 1:] where k is computed from the offset
+            splices = [a for a in ast.walk(L) if isinstance(a, ast.Assign) and isinstance(a.targets[0], ast.Name)
+                       and sum(1 for x in ast.walk(a.value) if isinstance(x, ast.Subscript) and isinstance(x.slice, ast.Slice)
+                               and unparse(x.value) == a.targets[0].id) >= 2]
+            if not splices:
+                continue
+            n13 += 1
+            bad = None
+            for ev, _d in _body_paths(L.body, lambda s_: s_ is inc or any(s_ is sp for sp in splices)):
+                ni = sum(1 for e in ev if e is inc)
+                ns = sum(1 for e in ev if e is not inc)
+                if ni != ns:
+                    bad = (ni, ns)
+            chk.instance(F13, f'mu_reference_model: `{unparse(inc)}` and the splice of `{splices[0].targets[0].id}` happen on the '
+                              f'same paths: {bad is None}')
+            if bad is not None:
+                chk.violation(F13, xm.rel, f.name, f'{unparse(inc)} on a path with {bad[1]} splice(s)',
+                              f'`{off}` counts the statements inserted so far; it advances on a path that inserts nothing (or not '
+                              f'on one that does), so later insertions land on the wrong statement and overwrite it',
+                              line=inc.lineno,
+                              witness='a partly mu-referenced model (mu_reference_model, add_iiv, mu_reference_model again): an '
+                                      'unrelated statement such as V = VC is replaced')
+    if n13 == 0:
+        raise AnalysisError('F13: offset / splice of mu_reference_model not recognised')
+    F14 = chk.rule('F14', 'replace_non_random_rvs: a distribution is kept unless the variance parameter is fixed AND zero '
+                          '(truth table of the keep test)', floor=4)
+    rm = repo.module('pharmpy.modeling.random_variables')
+    g = rm.functions.get('replace_non_random_rvs')
+    if g is None:
+        raise AnalysisError('replace_non_random_rvs not found')
+    tests = [I for I in ast.walk(g.node) if isinstance(I, ast.If) and any(
+        isinstance(c, ast.Call) and isinstance(c.func, ast.Attribute) and c.func.attr == 'append' for s_ in I.body
+        for c in ast.walk(s_)) and {'init', 'fix'} <= {x.attr for x in ast.walk(I.test) if isinstance(x, ast.Attribute)}]
+    if not tests:
+        raise AnalysisError('F14: keep test of replace_non_random_rvs not found')
+    for I in tests:
+        pv = next(unparse(x.value) for x in ast.walk(I.test) if isinstance(x, ast.Attribute) and x.attr == 'init')
+        for init, fix in ((0.0, True), (0.0, False), (0.5, True), (0.5, False)):
+            try:
+                keep = bool(T.eval_pred(I.test, {f'{pv}.init': init, f'{pv}.fix': fix}))
+            except T.Undecidable as e:
+                raise AnalysisError(f'F14: keep test not evaluable: {e}')
+            want = not (init == 0.0 and fix)
+            chk.instance(F14, f'init={init}, fix={fix}: kept {keep} (wanted {want})')
+            if keep != want:
+                chk.violation(F14, rm.rel, g.name, f'if {unparse(I.test)}: init={init}, fix={fix} -> kept={keep}',
+                              'only a variance fixed to zero makes the random variable a constant; this case is decided '
+                              'the other way', line=I.lineno,
+                              witness='$SIGMA 1 FIX (or a fixed omega) then cleanup_model: the epsilon is replaced by 0 and '
+                                      'its variance parameter dropped')
